@@ -188,7 +188,7 @@ def make_sort(fam, rec):
 
 
 # -------------------------------------------------------- metadata merge ----
-N_MDF = 3
+N_MDF = 4
 
 
 def mdf_rule(fam, a, b):
@@ -202,6 +202,12 @@ def mdf_rule(fam, a, b):
         out.update(b)
     if a:
         out.update(a)
+    if fam == 3:
+        # a function whose result shows that it was applied, and to what:
+        # differs from both inputs also when only one side has an entry
+        out['merged_from'] = ('self' if a is not None else '') + \
+            ('other' if b is not None else '') or 'neither'
+        return out
     return out or None
 
 
